@@ -102,6 +102,8 @@ type Peer struct {
 	// version / verack only once the gate is closed (Held is 1 while a session waits there).
 	HoldGate chan struct{}
 	Held     int32
+	// Stalled counts the sessions in which this peer sent its version and then withheld its verack / hung up
+	Stalled int32
 }
 
 type session struct {
@@ -129,7 +131,7 @@ func (p *Peer) tip() *Blk {
 func (p *Peer) services() wire.ServiceFlag {
 	s := wire.SFNodeNetwork | wire.SFNodeWitness | wire.SFNodeCF
 	if p.B.Kind == "noServices" {
-		if p.B.Variant == "witness" {
+		if strings.HasPrefix(p.B.Variant, "witness") {
 			s &^= wire.SFNodeWitness
 		} else {
 			s &^= wire.SFNodeCF
@@ -204,6 +206,33 @@ func (p *Peer) Serve(conn net.Conn) {
 	// the pipe is unbuffered: from here on all writes go through the queue so
 	// that reading the client's sendaddrv2/verack never waits for our verack
 	go s.writer(pver, net)
+	if p.B.Kind == "noServices" && strings.HasSuffix(p.B.Variant, "-noverack") {
+		// the peer has announced its services (version) and never acknowledges ours: the handshake stays
+		// incomplete; it keeps reading whatever it is sent (requests are counted) until the client hangs up
+		atomic.AddInt32(&p.Stalled, 1)
+		conn.SetDeadline(time.Now().Add(8 * time.Second))
+		for {
+			_, m, _, err := wire.ReadMessageWithEncodingN(conn, pver, net, wire.WitnessEncoding)
+			if err != nil {
+				if err == wire.ErrUnknownMessage {
+					continue
+				}
+				return
+			}
+			switch m.(type) {
+			case *wire.MsgGetHeaders:
+				atomic.AddInt32(&p.GotGetHeaders, 1)
+			case *wire.MsgGetCFCheckpt:
+				atomic.AddInt32(&p.GotGetCFCheckpt, 1)
+			case *wire.MsgGetCFHeaders:
+				atomic.AddInt32(&p.GotGetCFHeaders, 1)
+			case *wire.MsgGetCFilters:
+				atomic.AddInt32(&p.GotGetCFilters, 1)
+			case *wire.MsgGetData:
+				atomic.AddInt32(&p.GotGetData, 1)
+			}
+		}
+	}
 	s.send(wire.NewMsgVerAck())
 	for {
 		_, m, _, err := wire.ReadMessageWithEncodingN(conn, pver, net, wire.WitnessEncoding)
@@ -216,6 +245,12 @@ func (p *Peer) Serve(conn net.Conn) {
 	}
 	conn.SetDeadline(time.Time{})
 	atomic.AddInt32(&p.Handshakes, 1)
+	if p.B.Kind == "noServices" && strings.HasSuffix(p.B.Variant, "-hangup") {
+		// handshake complete on the wire; the peer hangs up before the client's peer handler gets to it
+		atomic.AddInt32(&p.Stalled, 1)
+		time.Sleep(time.Millisecond)
+		return
+	}
 	close(s.ready)
 	for {
 		_, m, _, err := wire.ReadMessageWithEncodingN(conn, pver, net, wire.WitnessEncoding)
